@@ -1,6 +1,7 @@
 package c20
 
 import (
+	"crypto/sha256"
 	"encoding/hex"
 	"fmt"
 	"math/big"
@@ -67,12 +68,21 @@ func (e *Env) Apply(f func() lib.ErrorI) (st string) {
 	return status(ferr)
 }
 
-func showPoints(pts []*lib.PoolPoints) string {
+func showPointsFull(pts []*lib.PoolPoints) string {
 	var s []string
 	for _, p := range pts {
 		s = append(s, fmt.Sprintf("%s=%d", hx(p.Address), p.Points))
 	}
 	return strings.Join(s, ",")
+}
+
+// showPoints: long tables are dumped as #<count>:<sha256 of the full text>
+func showPoints(pts []*lib.PoolPoints) string {
+	if len(pts) > 64 {
+		h := sha256.Sum256([]byte(showPointsFull(pts)))
+		return fmt.Sprintf("#%d:%x", len(pts), h)
+	}
+	return showPointsFull(pts)
 }
 
 // ShowBatch is the canonical text of a lib.DexBatch (also the wire form of a remote batch on op lines).
